@@ -56,7 +56,8 @@ def graph_cases(draw, tier):
             rng = random.Random(draw(st.integers(0, 2 ** 32 - 1)))
             graph = dict(graph, rows=[r | (1 << rng.randrange(4)) | (1 << rng.randrange(4)) for r in graph["rows"]])
     return {"graph": graph, "repeats": draw(st.integers(2, 10)), "np_seed": draw(st.integers(0, 2 ** 32 - 1)),
-            "verbose": draw(st.sampled_from([False, False, False, True]))}
+            "verbose": draw(st.sampled_from([False, False, False, True])),
+            "layout": draw(st.sampled_from([None, None, None, "F", "strided", "int32"]))}
 
 
 def evaluate_graph(case):
@@ -64,10 +65,10 @@ def evaluate_graph(case):
     dsw = import_dsw()
     graph = case["graph"]
     k, rows = graph["k"], graph["rows"]
-    acc = gens.accessor_of(graph)
-    snapshot = acc.copy()
+    acc = gens.accessor_of(graph, case.get("layout"))
+    snapshot = numpy.array(acc, copy=True)
     info = analyse(rows, k)
-    labels = ["k=%d" % k, info["reason"]]
+    labels = ["k=%d" % k, info["reason"]] + (["layout:" + case["layout"]] if case.get("layout") else [])
     results = {}
     numpy.random.seed(case["np_seed"])
     results["random"] = lib_call(dsw.approximate_capacity, _twice=False, accessor=acc, repeats=case["repeats"])
